@@ -97,6 +97,7 @@ func runC03(s *scenario, seed uint64) {
 	if s.only < 0 {
 		c03Lag(s, "fill")
 		c03Lag(s, "oversize")
+		c03Last(s, seed)
 	}
 	for i := 0; i < runs; i++ {
 		derived := master.U64()
